@@ -160,7 +160,13 @@ impl Property for C10 {
     fn run_choices(&self, ctx: &mut Ctx) -> Outcome {
         let mut nw = NetWorld::new(ctx.src.u16() as u64);
         let max_clients = 1 + ctx.src.below(4);
-        nw.servers.push(mk_server(0, 1, PROTO, max_clients, nw.now, true));
+        // a tenth of the cases run the server in its Unsecure development mode (tokens sealed with the all-zero key, host list unchecked)
+        let unsecure = ctx.src.chance(25);
+        if unsecure {
+            ctx.label("unsecure_server");
+        }
+        let token_key = if unsecure { [0u8; 32] } else { key(1) };
+        nw.servers.push(mk_server(0, 1, PROTO, max_clients, nw.now, !unsecure));
         let mut m = Model { generation: BTreeMap::new(), first_seen_gen: BTreeMap::new(), open: BTreeMap::new(), max_clients, events: 0, refused_when_full: 0 };
         let timeout = ctx.src.pick(&[3i32, 2, 5]);
         ctx.op(&(max_clients, timeout));
@@ -170,7 +176,7 @@ impl Property for C10 {
         let spawn = |nw: &mut NetWorld, ctx: &mut Ctx| -> usize {
             let ident = ctx.src.below(4) as u64;
             let addr_i = ctx.src.below(5);
-            let t = nw.mint(&TokenSpec { client_id: 300 + ident, user: ident * 16 + nw.clients.len() as u64, expire_seconds: 600, timeout, addrs: vec![server_addr(0)], key: key(1), protocol: PROTO });
+            let t = nw.mint(&TokenSpec { client_id: 300 + ident, user: ident * 16 + nw.clients.len() as u64, expire_seconds: 600, timeout, addrs: vec![server_addr(0)], key: token_key, protocol: PROTO });
             let user = ident * 16 + nw.clients.len() as u64;
             nw.add_client(t, client_addr(addr_i), user)
         };
